@@ -201,11 +201,26 @@ Definition all_msgs (p : list msg * list (msg * list msg) * list msg) : list msg
 Definition leftover (p : list msg * list (msg * list msg) * list msg) : list msg :=
   let '(_, _, rest) := p in rest.
 
-(* ---- what C13 asks, as decidable observations on the message list ------------ *)
+(* ---- what C13 asks, on the message list of the closed propagation -------------- *)
 Definition recv_count (r : N) (ms : list msg) : nat :=
   length (filter (fun m => m_dst m =? r) ms).
+(* r consumes some output and is not the root *)
+Definition is_dest (root : N) (sets : list (list N)) (r : N) : bool :=
+  negb (r =? root) && existsb (mem r) sets.
+(* every consumer of output k is activated by a message that announces k, and the
+   sender of that message holds k (it is the root, or it consumes k itself) *)
+Definition payload_ok (n root : N) (sets : list (list N)) (child : Z -> Z -> bool) : Prop :=
+  forall m, In m (all_msgs (propagate n root sets child)) ->
+  forall k, mem (m_dst m) (nth k sets []) = true ->
+    N.testbit (m_ann m) (N.of_nat k) = true /\
+    (m_src m = root \/ mem (m_src m) (nth k sets []) = true).
 (* some destination of output k is activated by a message that does not announce k *)
 Definition relay_lacks_output (n root : N) (sets : list (list N)) (child : Z -> Z -> bool) : bool :=
   existsb (fun m => existsb (fun k => mem (m_dst m) (nth k sets []) && negb (N.testbit (m_ann m) (N.of_nat k)))
                             (seq 0 (length sets)))
           (all_msgs (propagate n root sets child)).
+(* the destination sets (root ignored) are pairwise equal or disjoint *)
+Definition same_or_disjoint (root : N) (sets : list (list N)) : Prop :=
+  forall j k,
+    (forall x, x <> root -> mem x (nth j sets []) = mem x (nth k sets [])) \/
+    (forall x, x <> root -> mem x (nth j sets []) = true -> mem x (nth k sets []) = false).
